@@ -51,7 +51,7 @@ A("C06", "enum", "bounded-exhaustive enumeration of byte streams x every deliver
   "DESIGN.md section 2, C06", "environment model: (n>0,nil)* then (0,EOF)|(0,err); (n>0,EOF) excluded as unreachable from a descriptor")
 A("C07", "ptydrive", "exhaustive enumeration of record lists x framing options (filter mode) and selection histories x terminal events (interactive, real binary under a pty)",
   "50k filter processes (<= 2-3 records from a 10-record pool x read0/print0/ansi/print-query/no-sort/with-nth) compared byte-wise; 6k interactive sessions: selection histories <= 2-3 x "
-  "11 terminal events x multi/print0/print-query/expect/accept-nth/with-nth; select / deselect / select-again families; --select-1/--exit-0; malformed command lines exit 2.",
+  "11 terminal events x multi/print0/print-query/expect/accept-nth/with-nth; select / deselect / select-again and select / edit-the-query / accept families; --select-1/--exit-0; malformed command lines exit 2.",
   "DESIGN.md section 2, C07", "matching is C01's business (queries '', one letter, no match); selection state brought into agreement with the C09 model first")
 A("C08", "enum", "explicit-state BFS over query-edit / sort / input histories against shared caches on the real Matcher (Reset/Loop)",
   "All event histories of depth 4 (quick) / 5 (thorough) over 25 events (typing operators, deleting, clear, toggle-sort, exclude, more input, end of input), deduplicated on the state sequence; "
@@ -91,9 +91,9 @@ A("C20", "ptydrive", "exhaustive enumeration of event sequences x preview durati
   "(item, query, selection); pane shows it; <= 1 alive; none after exit. Known finding D5.", "DESIGN.md section 2, C20",
   "cursor/query/selection follow the C09 model; quiescence = 1.2 s of stability past fzf's 500 ms grace timers")
 A("C14", "ptydrive", "exhaustive enumeration of window sizes x option sets (robustness), of input byte strings (decoder), and of exit path x running child x instant (exit hygiene) on the real binary",
-  "44-98 window sizes from 1x1 x 78-540 option sets x adversarial input x a 17-action script with resizes; every byte string <= 3/4 over 16 decoder symbols; 145+ exit sessions: "
+  "44-98 window sizes from 1x1 x 78-540 option sets x adversarial input x a 17-action script with resizes; every byte string <= 3/4 over 16 decoder symbols plus every burst ESC [ w / ESC ESC [ w / ESC O w over the 8 symbols the CSI decision tree branches on; 145+ exit sessions: "
   "{accept, abort, SIGTERM, SIGINT} x {nothing, preview, execute-silent, execute, reload, transform} x child class x instant (delays, held hook points, after a real CTRL-Z / continue cycle under a job-control parent); SGR mouse interactions over a 42-point grid: alive and answering, no panic, "
-  "termios and DEC modes restored, TMPDIR empty, no process left. Known finding D15.",
+  "termios and DEC modes restored, TMPDIR empty, no process left.",
   "DESIGN.md section 2, C14", "hang = no answer within 30 s confirmed 5x; SIGINT during execute belongs to the child (documented); emulator trusted")
 A("C15", "ptydrive", "exhaustive enumeration of action histories x layouts x sizes on the real binary: incremental redraw == forced full redraw (differential), plus a structural oracle against GET /",
   "Histories <= 2/3 over 20 actions (moves, selection, typing, header/wrap/prompt/sort toggles, reload, resize) x 24-36 configurations (3 layouts x sizes x plain/inline/border/header-lines/header-first); "
